@@ -165,8 +165,13 @@ def run_scenarios(w):
         done.wait(10)
         return box
 
+    polled = []        # threads in which the polling callback of from_periodic ran
+
+    def poll_cb():
+        polled.append(threading.get_ident())
+        return 1
     kinds = {"from_iterable": lambda kw: Stream.from_iterable([1, 2], **kw),
-             "from_periodic": lambda kw: Stream.from_periodic(lambda: 1, 0.01, **kw)}
+             "from_periodic": lambda kw: Stream.from_periodic(poll_cb, 0.01, **kw)}
     for cls, ctor in kinds.items():
         for la, aa in ((1, 0), (1, 1), (0, 0), (0, 2)):
             for frm in (0, 1, 5):
@@ -182,8 +187,12 @@ def run_scenarios(w):
                 seen = []
                 ran = threading.Event()
 
-                def rec(x, seen=seen, ran=ran):
+                del polled[:]
+                sink_threads = []
+
+                def rec(x, seen=seen, ran=ran, sink_threads=sink_threads):
                     seen.append(IOLoop.current())
+                    sink_threads.append(threading.get_ident())
                     ran.set()
                 sink = src.sink(rec)
                 ev = [{"ups": [], "la": la, "aa": aa, "ens": True, "cls": cls, "raised": False,
@@ -204,6 +213,9 @@ def run_scenarios(w):
                     on = w.loop_id(seen[0])
                     if seen[0] is w.L2:
                         on = 5
+                    # every callback of the source -- the polling function included -- runs on that loop's thread
+                    if any(t != sink_threads[0] for t in polled):
+                        on = 9
                 ev.append({"run": 1, "from": frm, "on": on})
                 try:
                     call_on(src.loop, src.stop)
